@@ -10,7 +10,7 @@ def run(ctx):
     routerfam.validate(ctx, trace, only=["Inv_C08_", "Unconsumable"], require_events=300)
     # the same timed scenarios with the second-level cache (a minimal RESP3 server stands in for redis), alone and
     # behind the memory cache
-    for how in (("only",) if ctx.quick else ("only", "both")):
+    for how in ("only", "both"):
         trace, _ = routerfam.run_mode(ctx, drv, "c08-redis" + how, args + ["-redis", how])
         routerfam.validate(ctx, trace, only=["Inv_C08_", "Unconsumable"], require_events=300)
     # last clause at the memory cache: a store-if-absent (error responses) never replaces an entry that is present,
